@@ -32,6 +32,12 @@ pub fn big_recipe(t: usize, tail_pad: usize) -> Value {
         rr("c.b.a", 12, json!([nm("x.c.b.a")])),          // early names stay compressible
         rr("x.c.b.a", 6, json!([nm("n.m"), nm("b.a"), [0, 0, 0, 1], [0, 0, 0, 2], [0, 0, 0, 3], [0, 0, 0, 4], [0, 0, 0, 5]])),
     ];
+    // names that share only a late suffix with the name straddling the limit ("n.m" starts at t, so
+    // for t in 16376..16392 each of its labels, and those of "w.v.u" right after it, crosses 16383 in turn)
+    an.push(rr("w.v.u", 2, json!([nm("q.m")])));
+    an.push(rr("m", 5, json!([nm("v.u")])));
+    an.push(rr("u", 15, json!([[0, 3], nm("x.u")])));
+    an.push(rr("q.m", 12, json!([nm("y.v.u")])));
     if tail_pad > 0 {
         an.push(rr("p.q", 10, json!([filler(tail_pad, 9)])));
         an.push(rr("late.n.m", 2, json!([nm("late.n.m")])));
